@@ -183,15 +183,6 @@ Definition t_mismatch_list_statement : Prop :=
       if has_flag flags f_strict then TErr EMismatch else TOk (old, rest).
 
 (* ====================================================================== *)
-(* Not proved yet (no theorem claims these; kept as a comment, nothing unproved is left in the files):
-
-   - unknown fields at any nesting depth: t_unknown_fields_statement widens the top-level struct only (the unknown
-     fields themselves are of any type and nesting). The nested form needs a relation between a wide and a narrow
-     (type, value) pair through lists, map values, pointers and struct fields, and the decoded value of a field
-     that is zero in the narrow value but written in the wide one (only tnorm-equal to the narrow decoding);
-     sloop_gen3 of ProofsC.v is general enough in the bodies (abstract body bytes with a decoding fact) but its
-     bookkeeping of decoded slots (cur_of) is tied to the omission rule of the narrow value.
-   - the set and map variants of t_mismatch_list_statement (item / key / value type mismatch): same proof as the list
-     (skip_items / skip_entries are the loops of skip, see sk_list_spec / sk_map_spec in ProofsC.v), with the
-     empty-collection special cases of the decoder (size 0 is accepted before the type check).
-   - prefixes (truncation) of alternative and widened encodings: ProofsC.v works with complete input only. *)
+(* What was listed here as not proved yet (nested unknown fields, the set and map variants of t_mismatch_list_statement,
+   prefixes of alternative and widened encodings) is stated in Thrift/SpecD.v and proved in Thrift/ProofsD*.v; the end of
+   SpecD.v lists what remains open. *)
